@@ -34,7 +34,7 @@ CHECKS = {
    "DESIGN.md section 5 C07"),
  "C06": ("E3", "model_checking",
    "exhaustive enumeration of a time-line product (scheme x tsa store in policy x verifyTimestamp x 3x3 certificate windows x 4 signing times x 4 expiries x 11 countersignature states forged by an offline RFC 3161 authority x 4 TSA revocation answers x format; quick: all cases with <= 5 deviations, thorough: full product) on the real verifier; instance-reuse histories; clock-advance histories through a clock seam (package verifier compiled with its time import rewritten to a movable clock: every ordered pair of 5 verification instants on one verifier instance); reference clock model",
-   "Every case is verified by the real verifier under an all-log level (both results always reported) and under strict; the expiry and authentic-timestamp results and the strict verdict are compared with the reference clock model of DESIGN.md appendix A.2. All instants are >= 1 h away from the verification instant, so each case has one outcome whenever it runs.",
+   "Every case is verified by the real verifier under an all-log level (both results always reported) and under strict; the stated directions are judged against the reference clock model of DESIGN.md appendix A.2 (an expired signature fails expiry; the authentic-timestamp validation passes only if the model's conditions hold; strict accepts only if the model accepts); the converses are positive controls (counted, recorded, exit 2 if none holds). All instants are >= 1 h away from the verification instant, so each case has one outcome whenever it runs.",
    "Trusted: the clock model in harness/c06, lib/tsa (token encoder), lib/forge. Tokens of public TSAs, leap seconds and non-UTC encodings are outside the bound.",
    "DESIGN.md section 5 C06, appendix A.2"),
  "C14": ("E1+E4", "model_checking",
@@ -84,12 +84,12 @@ CHECKS = {
    "DESIGN.md section 5 C19"),
  "C03": ("E3", "model_checking",
    "exhaustive enumeration of certificate placements into the six named stores (<= 2 populated) x every store list of length 1..3 (quick 1..2) x second/wildcard statement listing the other stores x scheme x format x chain shape, on the real verifier over the real on-disk trust store behind a logging decorator; set-membership reference model + call-log clauses",
-   "Every case is one real verifier.Verify over real trust-store directories; the authenticity result and the (type, name) sequence of GetCertificates calls are compared with the membership model (listed stores of the scheme's type, all must load, some chain certificate byte-equal to a stored one).",
+   "Every case is one real verifier.Verify over real trust-store directories; the authenticity result is compared with the membership model (listed stores of the scheme's type, all must load, some chain certificate byte-equal to a stored one); of the GetCertificates log only what the statement fixes is judged (no store of another type, no unlisted store, no pass without every listed store having been asked) - order and repetition are recorded.",
    "Trusted: the membership model in harness/c03; no timestamp path is exercised (tsa stores must not be loaded); more than two populated stores / more than three statements are outside the bound.",
    "DESIGN.md section 5 C03"),
  "C05": ("E3", "model_checking",
    "exhaustive enumeration of all revocation result vectors over {OK, NonRevokable, Unknown, Revoked, undefined}^n, n=1..4, x method annotations x per-server errors x validator error x validator interface x action x scheme x format on the real verifier with a scripted validator; 3-line aggregation model + call-log clauses",
-   "Every vector of the quantifier (and an undefined status code) is answered by a scripted validator to the real verifier.Verify; the revocation result, overall verdict, named certificate and the options received by the validator (complete chain, signing time only for signing-authority) are compared with the aggregation model.",
+   "Every vector of the quantifier (and an undefined status code) is answered by a scripted validator to the real verifier.Verify; judged: a non-OK vector never passes, a revoked certificate fails as revoked and is named (by subject, common name, serial number or fingerprint), an enforced failure rejects, every validator call carries the complete chain and the signing time exactly for signing-authority. All-OK vectors are positive controls; behaviour under skip, call counts, entry counts and message wording are recorded only.",
    "Trusted: the aggregation model in harness/c05, lib/mocks. Result slices of a length other than the chain's are outside the quantifier (DESIGN.md O-1).",
    "DESIGN.md section 5 C05"),
  "C13": ("E3", "model_checking",
@@ -104,7 +104,7 @@ CHECKS = {
    "DESIGN.md section 5 C01"),
  "C02": ("E3", "model_checking",
    "exhaustive enumeration of the decision table (24 enforcement maps x trust x identity x expiry x certificate time x revocation answer x 32 plugin situations x critical-attribute state x format; quick: all cells with <= 3 deviations, thorough: full product and all 72 (base, override) ways) against a reference decision function; monotonicity relation checked on observed verdicts; call logs of scripted collaborators",
-   "Each (cell, enforcement map) is one real verifier.Verify call with scripted trust store / revocation validator / plugin manager / plugin; verdict, reported results (type, action, error) and collaborator call logs are compared with the reference decide() written from the statement; acceptance must be monotone in the map.",
+   "Each (cell, enforcement map) is one real verifier.Verify call with scripted trust store / revocation validator / plugin manager / plugin; the verdict (iff), the action of every reported result, the reporting of logged failures and the stated call-log clauses (skipped revocation neither performed nor sent to the plugin, declared capability replaces the native check, plugin asked exactly the declared non-skipped capabilities) are compared with the reference decide() written from the statement; acceptance must be monotone in the map. Observations the statement leaves open (repeated calls, duplicate or additional entries) are recorded in the evidence as recorded:* outcome classes, never judged.",
    "Trusted: the 90-line reference decide() in harness/c02 (DESIGN.md appendix A.1), lib/mocks, lib/forge. One known finding (F-02b) is listed in KNOWN_FINDINGS.txt.",
    "DESIGN.md section 5 C02, appendix A.1"),
  "C08": ("E3+E2", "model_checking",
